@@ -247,8 +247,8 @@ def jobs(tier):
     bt_cxx = (base + pt_pre + "namespace Avoid {\n" + consts.text + "\n" + "\n".join(x.text for x in hb) + "\n}\n"
               'extern "C" int w_bends(void *curr, unsigned int currDir, void *dest, unsigned int destDir)\n'
               '{ return Avoid::bends(*(const Avoid::Point *)curr, currDir, *(const Avoid::Point *)dest, destDir); }\n')
-    js.append(Job("bends_translation_invariance", "D", spec, "h_bends_translation", cxx=bt_cxx, defines=["JOB_bends_translation"], slices=hb,
-                  domain="integer-valued coordinates and offsets with |v| <= 2^20 (all sums exact), all 16 direction pairs, curr != dest",
+    js.append(Job("bends_translation_invariance", "D", spec, "h_bends_translation", cxx=bt_cxx, defines=["JOB_bends_translation", "TB=%d" % (1024 if tier == "quick" else 1048576)], slices=hb,
+                  domain="integer-valued coordinates and offsets with |v| <= %s (all sums exact), all 16 direction pairs, curr != dest" % ("2^10" if tier == "quick" else "2^20"),
                   expect=[r'h_bends_translation\.assertion'], flags=["--sat-solver", "cadical"], backend="sat:cadical"))
     return js
 
